@@ -436,3 +436,120 @@ Example C14_kernel_var2h_args : forall P rain disp maxgap hstart sec (vals hinit
   [AVI (MiniC.zlen sec); AVI (MiniC.zlen hinit); AVI P; AVI rain; AVI disp; AVI maxgap;
    AVArrI sec; AVArrF vals; AVI hstart; AVArrF hinit].
 Proof. reflexivity. Qed.
+
+(* ================================================================== *)
+(* C14 ITSELF on the regenerated program: the property theorems above *)
+(* transported to exec_fun RN XRN program "c_var2h" (Proofs/KernelVar2h.v). *)
+(* ================================================================== *)
+From Coq Require Import String Lia PrimFloat.
+From Hy Require Import Base.Num Base.MiniC Gen.KernelsAst Gen.Consts Gen.ConstsC14 Model.Var2h.
+From Hy Require Proofs.KernelVar2h.
+Import ListNotations.
+Open Scope string_scope.
+Open Scope list_scope.
+Open Scope Z_scope.
+
+(* run_var2h = the execution of the translated c_var2h *)
+Theorem C14_kernel_run_var2h :
+  forall (n : nat) (P rain disp maxgap hstart : Z) (sec : list Z)
+         (vals hinit : list (option R)),
+       KernelVar2h.run_var2h n P rain disp maxgap hstart sec vals hinit =
+       exec_fun RN XRN program (S n) "c_var2h"
+         [AVI (zlen sec); AVI (zlen hinit); AVI P; AVI rain; AVI disp; 
+          AVI maxgap; AVArrI sec; AVArrF vals; AVI hstart; AVArrF hinit].
+Proof. exact @KernelVar2h.run_var2h_is_exec. Qed.
+Print Assumptions C14_kernel_run_var2h.
+
+(* under var2h_pre the translated kernel returns 0, keeps the last entry of the buffer, and every other value it writes is missing or area/P of its period; a value x that is not missing satisfies x * P = integral over the period of the piecewise interpolant of the observations *)
+Theorem C14_kernel_var2h_period_average :
+  forall (P rain disp maxgap hstart : Z) (sec : list Z) (vals hinit : list (option R))
+         (n : nat),
+       Var2hProofs.var2h_pre P rain hstart sec ->
+       Datatypes.length vals = Datatypes.length sec ->
+       (Nat.max (Datatypes.length sec) (Datatypes.length hinit) < n)%nat ->
+       exists out : list (option R),
+         KernelVar2h.run_var2h n P rain disp maxgap hstart sec vals hinit =
+         Ok (RI 0, [VArrI sec; VArrF vals; VArrF out]) /\
+         Datatypes.length out = Datatypes.length hinit /\
+         (forall d : option R,
+          nth (Datatypes.length hinit - 1) out d = nth (Datatypes.length hinit - 1) hinit d) /\
+         (forall i : nat,
+          (i < Datatypes.length hinit - 1)%nat ->
+          nth i out None = None \/
+          nth i out None =
+          Some
+            (Var2hProofs.area P rain sec vals (Var2hProofs.pstart P hstart (Z.of_nat i))
+               (Var2hProofs.pend P hstart (Z.of_nat i)) / IZR P)%R) /\
+         (forall (i : nat) (x : R),
+          (i < Datatypes.length hinit - 1)%nat ->
+          nth i out None = Some x ->
+          RInt.is_RInt (Var2hIntegralProofs.ginterp P rain sec vals)
+            (IZR (Var2hProofs.pstart P hstart (Z.of_nat i)))
+            (IZR (Var2hProofs.pend P hstart (Z.of_nat i))) (x * IZR P)%R).
+Proof. exact @KernelVar2h.kernel_var2h_period_average. Qed.
+Print Assumptions C14_kernel_var2h_period_average.
+
+(* over any run of periods filled with numbers the values times P add up to the area between the start of the first and the end of the last *)
+Theorem C14_kernel_var2h_conservation :
+  forall (P rain disp maxgap hstart : Z) (sec : list Z) (vals hinit : list (option R))
+         (n : nat),
+       Var2hProofs.var2h_pre P rain hstart sec ->
+       Datatypes.length vals = Datatypes.length sec ->
+       (Nat.max (Datatypes.length sec) (Datatypes.length hinit) < n)%nat ->
+       exists out : list (option R),
+         KernelVar2h.run_var2h n P rain disp maxgap hstart sec vals hinit =
+         Ok (RI 0, [VArrI sec; VArrF vals; VArrF out]) /\
+         (forall a m : nat,
+          (a + m <= Datatypes.length hinit - 1)%nat ->
+          (forall i : nat, (a <= i < a + m)%nat -> nth i out None <> None) ->
+          (Var2hProofs.osum out a m * IZR P)%R =
+          Var2hProofs.area P rain sec vals (Var2hProofs.pstart P hstart (Z.of_nat a))
+            (Var2hProofs.pstart P hstart (Z.of_nat a + Z.of_nat m))).
+Proof. exact @KernelVar2h.kernel_var2h_conservation. Qed.
+Print Assumptions C14_kernel_var2h_conservation.
+
+(* a period extending past the last stamp is missing; an invalid interval overlapping the period makes it missing; a period inside the data whose intervals are all valid holds its average *)
+Theorem C14_kernel_var2h_missing :
+  forall (P rain disp maxgap hstart : Z) (sec : list Z) (vals hinit : list (option R))
+         (n : nat),
+       Var2hProofs.var2h_pre P rain hstart sec ->
+       Datatypes.length vals = Datatypes.length sec ->
+       (Nat.max (Datatypes.length sec) (Datatypes.length hinit) < n)%nat ->
+       exists out : list (option R),
+         KernelVar2h.run_var2h n P rain disp maxgap hstart sec vals hinit =
+         Ok (RI 0, [VArrI sec; VArrF vals; VArrF out]) /\
+         (forall i : nat,
+          (i < Datatypes.length hinit - 1)%nat ->
+          tsec sec (Datatypes.length sec - 1) < Var2hProofs.pend P hstart (Z.of_nat i) ->
+          nth i out None = None) /\
+         (forall i j : nat,
+          (i < Datatypes.length hinit - 1)%nat ->
+          (S j < Datatypes.length sec)%nat ->
+          tsec sec j < Var2hProofs.pend P hstart (Z.of_nat i) ->
+          Var2hProofs.pstart P hstart (Z.of_nat i) < tsec sec (S j) ->
+          Var2hProofs.ivl_invalid_spec maxgap sec vals j -> nth i out None = None) /\
+         (forall i : nat,
+          (i < Datatypes.length hinit - 1)%nat ->
+          Var2hProofs.pend P hstart (Z.of_nat i) <= tsec sec (Datatypes.length sec - 1) ->
+          (forall j : nat,
+           (S j < Datatypes.length sec)%nat ->
+           tsec sec j < Var2hProofs.pend P hstart (Z.of_nat i) ->
+           Var2hProofs.pstart P hstart (Z.of_nat i) <= tsec sec (S j) ->
+           ~ Var2hProofs.ivl_invalid_spec maxgap sec vals j) ->
+          nth i out None =
+          Some
+            (Var2hProofs.area P rain sec vals (Var2hProofs.pstart P hstart (Z.of_nat i))
+               (Var2hProofs.pend P hstart (Z.of_nat i)) / IZR P)%R).
+Proof. exact @KernelVar2h.kernel_var2h_missing. Qed.
+Print Assumptions C14_kernel_var2h_missing.
+
+(* non-vacuity: the series above executed on the translated kernel: 3, 3, missing, last entry untouched *)
+Theorem C14_kernel_var2h_example :
+  KernelVar2h.run_var2h 5 1800 0 0 432000 3600 Var2hProofs.w_sec Var2hProofs.w_vals
+         Var2hProofs.w_hinit =
+       Ok
+         (RI 0,
+          [VArrI Var2hProofs.w_sec; VArrF Var2hProofs.w_vals;
+           VArrF [Some 3%R; Some 3%R; None; None]]).
+Proof. exact @KernelVar2h.kernel_var2h_example. Qed.
+Print Assumptions C14_kernel_var2h_example.
